@@ -2,6 +2,8 @@ import Driver.Pure
 import Driver.Read
 import Driver.Utf8
 import Driver.Nego
+import Driver.TaskQ
+import Driver.Map
 
 open Drv
 
@@ -12,6 +14,9 @@ def dispatch (line : String) : Res :=
   | "read" :: args => runRead args
   | "utf8" :: args => runUtf8 args
   | "nego" :: args => runNego args
+  | "taskq" :: args => runTaskQ args
+  | "cmap" :: args => runCmap args
+  | "cmapconc" :: args => runCmapConc args
   | _ => bad "unknown-suite"
 
 partial def loop (hin hout : IO.FS.Stream) : IO Unit := do
